@@ -311,6 +311,7 @@ func init() {
 		rep.Assume = c.Assume
 		h.RunSeqInto(rep, "C05", tier, time.Time{})
 		h.RunSchedInto(rep, "C05sched", tier)
+		c05ReadFaults(rep)
 		return rep.Emit()
 	}
 }
